@@ -142,6 +142,11 @@ class Sched:
             if not moved:
                 self.deadlock = "no enabled actor: " + ", ".join(
                     f"{a.name}:{'done' if a.done else 'blocked'}" for a in self.actors)
+                import os
+                if os.environ.get("VERIF_DUMP_THREADS"):
+                    import faulthandler
+                    import sys
+                    faulthandler.dump_traceback(file=sys.stderr, all_threads=True)
                 self.abort()
                 if cur is not None and not cur.done:
                     raise ThreadAbort()
